@@ -18,7 +18,7 @@ class C07(e1.E1Check):
                    var(rec(("x", I), ("y", F))), var(var(var(I))), reg(2, var(I)), var(S), var(opt(var(I))), opt(I)]
     types_thorough = types_quick + [var(reg(3, I)), reg(4, I), var(var(opt(I))), opt(var(var(I))), reg(2, reg(2, I)), rec(("x", I))]
     bounds_quick = dict(N=2, M=3, K=6, enc_k=1, state_cap=50, parts=2)
-    bounds_thorough = dict(N=4, M=4, K=10, enc_k=1, state_cap=250, parts=16)
+    bounds_thorough = dict(N=3, M=4, K=8, enc_k=1, state_cap=45, parts=16)
     rule = ("states = arrays whose lists at every level have lengths 0..M (regular sizes 0..3/4), missing lists, element types "
             "record/list/option/string, x every list-node encoding; transitions = combinations(n, replacement, axis, keys) for "
             "n in 0..5, every axis in [-depth-1, depth], with and without field names; oracle = itertools.combinations / "
